@@ -235,6 +235,9 @@ func init() {
 		Cases: func(tier string, seed int64) []CaseSpec {
 			cs := chainCases(tier, seed+32452843, 64, 800, true)
 			for i := range cs {
+				if i%3 == 2 && cs[i].P["n"] >= 4 && cs[i].S["shape"] != "silent" {
+					cs[i].P["ffresets"] = 1
+				}
 				if cs[i].S["shape"] == "silent" {
 					cs[i].P["keepsilent"] = int64(i % 2)
 					// a dead minority and membership changes interact with the 1/3 bound: keep sets static there
